@@ -19,3 +19,5 @@ open SamVerif.Heap SamVerif.PStr
 #print axioms bytesOf_lt
 #print axioms inline_tag_disjoint
 #print axioms raw_eq_iff
+#print axioms cmpHandle_eq_zero_iff
+#print axioms cmpHandle_antisymm
